@@ -49,6 +49,10 @@ type Outcome struct {
 	Transitions int  `json:"transitions,omitempty"`
 	Traces      int  `json:"traces,omitempty"`
 	Capped      bool `json:"capped,omitempty"`
+	// Witnessed: the violation text is a self-certifying witness from a monitor whose executions are not
+	// under the harness's control (a Go race detector report: no false positives, but it needs the racy
+	// interleaving to occur). Such a violation is reported even if re-execution does not reproduce it.
+	Witnessed bool `json:"witnessed,omitempty"`
 	// Extra: free-form sub-counters summed by key.
 	Extra map[string]int `json:"extra,omitempty"`
 	// Detail is stored in the replay artefact.
@@ -597,7 +601,9 @@ func MasterMain(id, tier, self string) int {
 				}
 			}
 			conf = fmt.Sprintf("%d/%d", same, reps)
-			if same != reps {
+			if same != reps && o.Witnessed {
+				conf += " (self-certifying report of a free-running monitor)"
+			} else if same != reps {
 				flaky++
 				fmt.Printf("FLAKY property=%s sig=%s reproduced %s: %s\n", id, sig, conf, o.Violation)
 				writeReplay(id, cases, o, stderrs[o.N], conf, "flaky-")
